@@ -117,6 +117,12 @@ impl CommitOracle {
 		}
 	}
 
+	/// (channel index, side of the signer, commitment number) of a commitment transaction some node signed for
+	/// its peer, by txid
+	pub fn signed_commitment_number(&self, txid: &Txid) -> Option<(usize, usize, u64)> {
+		self.signed.iter().find(|(_, t)| *t == txid).map(|((c, s, n), _)| (*c, *s, *n))
+	}
+
 	fn chan_by_funding(&self, sim: &Sim, txid: Txid) -> Option<usize> {
 		sim.chans.iter().position(|c| c.funding_tx.compute_txid() == txid)
 	}
